@@ -2,7 +2,7 @@ package main
 
 // C19 — core builtins and bundled package tables agree with their Go counterparts.
 //
-// Four phases:
+// Five phases (histories: see c19_r5.go):
 //   tables  structural invariant on the LIVE env.Packages / env.PackageTypes tables (exhaustive):
 //           every Func entry resolves (runtime.FuncForPC) to the symbol "<import path>.<key>", every
 //           type entry is the named type <import path>.<key> (or a pointer to it), and what a script
@@ -213,6 +213,12 @@ func c19TablesCase(c *wk.Case, pkg string) {
 				c.Violation("table:import:type", fmt.Sprintf("import(%q) type %s is %v, not the table entry %v (err=%v)", pkg, key, it, t, err), in)
 			}
 		}
+	}
+	if mod != nil {
+		// round 5: what a SCRIPT reaches by member access / type path on the imported module
+		// (after a script has overwritten the members of other module values of the same package)
+		c19TablesRebind(c, pkg, funcs)
+		c19TablesScript(c, pkg, funcs, types)
 	}
 	c.Count("table-functions", nf)
 	c.Count("table-types", len(types))
@@ -2077,20 +2083,22 @@ func init() {
 	wk.Register(&wk.Engine{
 		ID: "C19",
 		Plan: func(tier string) fw.Plan {
-			nRandRange, nRandVals := 10, 160
+			nRandRange, nRandVals, nHist := 10, 160, 60
 			if tier == "thorough" {
-				nRandRange, nRandVals = 400, 12000
+				nRandRange, nRandVals, nHist = 400, 12000, 4000
 			}
 			return fw.Plan{
 				Level: "exploration",
-				Rule: "tables: EVERY entry of the live env.Packages/env.PackageTypes (function entries: runtime.FuncForPC name == \"<import path>.<key>\"; type entries: named type <import path>.<key> or pointer to it; what import() hands out is the table entry); " +
+				Rule: "tables: EVERY entry of the live env.Packages/env.PackageTypes (function entries: runtime.FuncForPC name == \"<import path>.<key>\"; type entries: named type <import path>.<key> or pointer to it; what import() hands out is the table entry; what a script reads by member access on the imported module, in six syntactic positions, after another script overwrote the members of module values it had imported itself, is that Go function, and the type it names by the path m.<key> is that Go type); " +
 					"range: all triples (and 1-/2-argument forms, wrong counts, zero steps) over an int64 boundary pool (18 values quick, 37 thorough) whose progression has <= 10000 elements, plus PRNG triples, each run in a limited child process and compared with the math/big progression; " +
 					"values: every builtin of {typeOf kindOf len keys toInt toFloat toString toRune toChar toByteSlice toRuneSlice toBoolSlice toStringSlice toIntSlice toFloatSlice} on a fixed universe of Go- and script-created values, PRNG numbers/numerals/strings/maps/slices and reflect-built random types, against native Go; " +
-					"misuse: every builtin x wrong argument count (direct and spread) x every value kind, and non-integer arguments of range. An evaluation is non-trivial when the statement fixes its outcome; distinct = distinct (call, argument type, argument rendering).",
+					"misuse: every builtin x wrong argument count (direct and spread) x every value kind, and non-integer arguments of range; " +
+					"histories: sequences of calls of the container-returning builtins (range with 1-3 small arguments in related spellings, keys, the typed-slice and byte/rune slice forms) in which the script or the host stores into, appends to or uses the spare capacity of what a call returned before the builtin is called again with the same or related arguments, in the same and in fresh environments of one process; every call is judged against the native reference of the arguments' current values (case 0: every n in 0..130 in every spelling, all positions overwritten). An evaluation is non-trivial when the statement fixes its outcome; distinct = distinct (call, argument type, argument rendering).",
 				Assumptions: []string{
 					"reference = Go itself on the same toolchain: math/big, strconv, fmt.Sprint, reflect.Type.String, native conversions",
 					"runtime.FuncForPC(entry).Name() identifies the Go function a table entry is bound to; flag.Usage is a func-typed variable and is compared with the variable's value; types defined in anko's own packages directory are anko helpers, not mis-bindings",
 					"not judged (statement silent): toBool, bool arguments of toInt/toFloat, load/print*, float->int conversions outside int64, numerals outside int64/float64, strings that are neither decimal numerals nor digit-free, argument conversions done by the call machinery (only kinds no Go conversion relates to the parameter must be errors)",
+					"histories run in-process: only progressions of <= 300 elements whose successor stays inside int64; a store into a builtin's result that the VM refuses is not judged (only the builtin calls are)",
 					"a range call whose child exceeds its heap/CPU budget (legal results need <= 80 kB) did not return the demanded progression: violation with that triple, never a hang",
 				},
 				Phases: []fw.Phase{
@@ -2098,6 +2106,7 @@ func init() {
 					{Name: "range", Cases: 1 + c19EnumCases(tier) + nRandRange, Chunk: 1, Jobs: 16, TimeoutS: 900},
 					{Name: "values", Cases: nUniCases + nRandVals, Chunk: 40, TimeoutS: 900},
 					{Name: "misuse", Cases: len(c19MisuseNames), Chunk: 2, TimeoutS: 600},
+					{Name: "histories", Cases: 1 + nHist, Chunk: 16, Jobs: 4, TimeoutS: 600, MemMB: 3072},
 				},
 			}
 		},
@@ -2110,6 +2119,8 @@ func init() {
 				}
 			case "range":
 				c19RangeCase(c)
+			case "histories":
+				c19HistoriesCase(c)
 			case "misuse":
 				if c.Index < len(c19MisuseNames) {
 					c19MisuseCase(c, c19MisuseNames[c.Index])
